@@ -1,0 +1,420 @@
+//go:build verif
+
+package reduce
+
+import (
+	"github.com/grindlemire/go-lucene/internal/lex"
+	"github.com/grindlemire/go-lucene/internal/verifspec"
+	"github.com/grindlemire/go-lucene/pkg/lucene/expr"
+)
+
+// Contracts of the reduction rules (properties C05, C06, C10, C11, C01).
+// Every rule R gets: reduced == PatR(elems) (the rule's right-hand side,
+// position by position, written from the grammar in the property statement);
+// when it fires, out == [BuildR(elems)] expressed through the public
+// constructors, and exactly the tokens the pattern names leave the
+// non-terminal stack.
+
+// ---- vocabulary -------------------------------------------------------------------------
+
+// IsTok: the stack element is a token.
+func IsTok(a any) bool { _, ok := a.(lex.Token); return ok }
+
+// TokIs: the stack element is a token of type t.
+func TokIs(a any, t lex.TokType) bool {
+	tok, ok := a.(lex.Token)
+	return ok && tok.Typ == t
+}
+
+// IsE: the stack element is an expression.
+func IsE(a any) bool { _, ok := a.(*expr.Expression); return ok }
+
+// E: the expression held by a stack element.
+func E(a any) *expr.Expression {
+	e, _ := a.(*expr.Expression)
+	return e
+}
+
+// ElemOK: a stack element is a token or a non-nil expression of parser shape.
+func ElemOK(a any) bool {
+	if IsTok(a) {
+		return true
+	}
+	e, ok := a.(*expr.Expression)
+	return ok && e != nil && expr.ShapeP(e)
+}
+
+// ElemsOK: all stack elements are.
+func ElemsOK(s []any) bool {
+	return verifspec.Forall(0, len(s), func(i int) bool { return ElemOK(s[i]) })
+}
+
+// NTok: number of tokens among the first n elements of s.
+func NTok(s []any, n int) int {
+	if n <= 0 {
+		return 0
+	}
+	return NTok(s, n-1) + verifspec.B2I(IsTok(s[n-1]))
+}
+
+// Dropped: r is nt without its last k tokens.
+func Dropped(r, nt []lex.Token, k int) bool {
+	return len(r) == len(nt)-k && verifspec.Forall(0, len(r), func(i int) bool { return r[i] == nt[i] })
+}
+
+// SamePrefix: a and b agree on their first n elements.
+func SamePrefix(a, b []any, n int) bool {
+	return n <= len(a) && n <= len(b) && verifspec.Forall(0, n, func(i int) bool { return a[i] == b[i] })
+}
+
+// ---- lemmas about NTok (proved by induction: the recursive call is the hypothesis) ----------
+
+//@ func lemmaNTokPrefix
+//@   lemma
+//@   props C01
+//@   requires 0 <= n && SamePrefix(a, b, n)
+//@   decreases n
+//@   ensures  NTok(a, n) == NTok(b, n)
+func lemmaNTokPrefix(a, b []any, n int) {
+	if n > 0 {
+		lemmaNTokPrefix(a, b, n-1)
+	}
+}
+
+//@ func lemmaNTokBounds
+//@   lemma
+//@   props C01
+//@   requires 0 <= n
+//@   decreases n
+//@   ensures  0 <= NTok(a, n) && NTok(a, n) <= n
+func lemmaNTokBounds(a []any, n int) {
+	if n > 0 {
+		lemmaNTokBounds(a, n-1)
+	}
+}
+
+// IsConcat: c is a followed by the first lb elements of b.
+func IsConcat(c, a, b []any, lb int) bool {
+	return 0 <= lb && lb <= len(b) && len(c) >= len(a)+lb && SamePrefix(c, a, len(a)) &&
+		verifspec.Forall(0, lb, func(i int) bool { return c[len(a)+i] == b[i] })
+}
+
+//@ func lemmaNTokConcat
+//@   lemma
+//@   props C01
+//@   requires IsConcat(c, a, b, lb)
+//@   decreases lb
+//@   ensures  NTok(c, len(a)+lb) == NTok(a, len(a)) + NTok(b, lb)
+func lemmaNTokConcat(c, a, b []any, lb int) {
+	if lb > 0 {
+		lemmaNTokConcat(c, a, b, lb-1)
+	} else {
+		lemmaNTokPrefix(c, a, len(a))
+	}
+}
+
+// ---- the rules ------------------------------------------------------------------------------
+
+// PatAnd / PatOr: E AND E, E OR E.
+func PatBin(elems []any, t lex.TokType) bool {
+	return len(elems) == 3 && TokIs(elems[1], t) && IsE(elems[0]) && IsE(elems[2])
+}
+
+//@ func and
+//@   props C05 C06 C10 C11 C01
+//@   fuel 2 NTok=5 ShapeP=3
+//@   requires ElemsOK(elems) && len(nonTerminals) >= 1+NTok(elems, len(elems))
+//@   ensures  result2 == PatBin(elems, lex.TAnd)
+//@   ensures  !result2 ==> verifspec.Same(result0, elems) && verifspec.Same(result1, nonTerminals)
+//@   ensures  result2 ==> len(result0) == 1 && result0[0] == any(expr.AND(wrapLiteral(E(elems[0]), defaultField), wrapLiteral(E(elems[2]), defaultField)))
+//@   ensures[shape]  result2 ==> ElemOK(result0[0]) && ElemsOK(result0)
+//@   ensures[tokens] result2 ==> Dropped(result1, nonTerminals, 1) && NTok(result0, len(result0)) == NTok(elems, len(elems))-1
+
+//@ func or
+//@   props C05 C06 C10 C11 C01
+//@   fuel 2 NTok=5 ShapeP=3
+//@   requires ElemsOK(elems) && len(nonTerminals) >= 1+NTok(elems, len(elems))
+//@   ensures  result2 == PatBin(elems, lex.TOr)
+//@   ensures  !result2 ==> verifspec.Same(result0, elems) && verifspec.Same(result1, nonTerminals)
+//@   ensures  result2 ==> len(result0) == 1 && result0[0] == any(expr.OR(wrapLiteral(E(elems[0]), defaultField), wrapLiteral(E(elems[2]), defaultField)))
+//@   ensures[shape]  result2 ==> ElemOK(result0[0]) && ElemsOK(result0)
+//@   ensures[tokens] result2 ==> Dropped(result1, nonTerminals, 1) && NTok(result0, len(result0)) == NTok(elems, len(elems))-1
+
+// LitChain: what isChainedOrLiterals promises about an OR-chain of plain literals.
+func LitChain(out []*expr.Expression) bool {
+	return verifspec.Forall(0, len(out), func(i int) bool { return expr.ParserLeaf(out[i]) && out[i].Op == expr.Literal })
+}
+
+//@ func isChainedOrLiterals
+//@   props C06 C11 C01 C03
+//@   functional
+//@   structural
+//@   fuel 2 ShapeP=2
+//@   requires in == nil || expr.ShapeP(in)
+//@   ensures  ok ==> in != nil && LitChain(out) && len(out) >= 1
+//@   ensures  in != nil && in.Op == expr.Literal ==> ok && len(out) == 1 && out[0] == in
+
+// EqualBuild: field:value - a value list when the value is an OR-chain of two or
+// more plain literals, an equality (or pattern match, see expr.Expr) otherwise.
+func EqualBuild(term, value *expr.Expression) *expr.Expression {
+	if lits, ok := isChainedOrLiterals(value); ok && len(lits) > 1 {
+		return expr.IN(term, expr.LIST(lits))
+	}
+	return expr.Eq(term, value)
+}
+
+// PatEqual: E : E   or   E = E
+func PatEqual(elems []any) bool {
+	return len(elems) == 3 && (TokIs(elems[1], lex.TEqual) || TokIs(elems[1], lex.TColon)) && IsE(elems[0]) && IsE(elems[2])
+}
+
+//@ func equal
+//@   props C05 C06 C10 C11 C01
+//@   fuel 2 NTok=5 ShapeP=3
+//@   requires ElemsOK(elems) && len(nonTerminals) >= 1+NTok(elems, len(elems))
+//@   ensures  result2 == PatEqual(elems)
+//@   ensures  !result2 ==> verifspec.Same(result0, elems) && verifspec.Same(result1, nonTerminals)
+//@   ensures  result2 ==> len(result0) == 1 && result0[0] == any(EqualBuild(E(elems[0]), E(elems[2])))
+//@   ensures[shape]  result2 ==> ElemOK(result0[0]) && ElemsOK(result0)
+//@   ensures[tokens] result2 ==> Dropped(result1, nonTerminals, 1) && NTok(result0, len(result0)) == NTok(elems, len(elems))-1
+
+// PatCompare: E : > E   or   E : < E
+func PatCompare(elems []any) bool {
+	return len(elems) == 4 && TokIs(elems[1], lex.TColon) && (TokIs(elems[2], lex.TGreater) || TokIs(elems[2], lex.TLess)) &&
+		IsE(elems[0]) && IsE(elems[3])
+}
+
+// CompareBuild: the comparison node for E:>E / E:<E.
+func CompareBuild(elems []any) *expr.Expression {
+	if TokIs(elems[2], lex.TGreater) {
+		return expr.GREATER(E(elems[0]), E(elems[3]))
+	}
+	return expr.LESS(E(elems[0]), E(elems[3]))
+}
+
+//@ func compare
+//@   props C05 C06 C10 C01
+//@   fuel 2 NTok=6 ShapeP=3
+//@   requires ElemsOK(elems) && len(nonTerminals) >= 1+NTok(elems, len(elems))
+//@   ensures  result2 == PatCompare(elems)
+//@   ensures  !result2 ==> verifspec.Same(result0, elems) && verifspec.Same(result1, nonTerminals)
+//@   ensures  result2 ==> len(result0) == 1 && result0[0] == any(CompareBuild(elems))
+//@   ensures[shape]  result2 ==> ElemOK(result0[0]) && ElemsOK(result0)
+//@   ensures[tokens] result2 ==> Dropped(result1, nonTerminals, 2) && NTok(result0, len(result0)) == NTok(elems, len(elems))-2
+
+// PatCompareEq: E : > = E   or   E : < = E
+func PatCompareEq(elems []any) bool {
+	return len(elems) == 5 && TokIs(elems[1], lex.TColon) && (TokIs(elems[2], lex.TGreater) || TokIs(elems[2], lex.TLess)) &&
+		TokIs(elems[3], lex.TEqual) && IsE(elems[0]) && IsE(elems[4])
+}
+
+// CompareEqBuild: the comparison node for E:>=E / E:<=E.
+func CompareEqBuild(elems []any) *expr.Expression {
+	if TokIs(elems[2], lex.TGreater) {
+		return expr.GREATEREQ(E(elems[0]), E(elems[4]))
+	}
+	return expr.LESSEQ(E(elems[0]), E(elems[4]))
+}
+
+//@ func compareEq
+//@   props C05 C06 C10 C01
+//@   fuel 2 NTok=7 ShapeP=3
+//@   requires ElemsOK(elems) && len(nonTerminals) >= 1+NTok(elems, len(elems))
+//@   ensures  result2 == PatCompareEq(elems)
+//@   ensures  !result2 ==> verifspec.Same(result0, elems) && verifspec.Same(result1, nonTerminals)
+//@   ensures  result2 ==> len(result0) == 1 && result0[0] == any(CompareEqBuild(elems))
+//@   ensures[shape]  result2 ==> ElemOK(result0[0]) && ElemsOK(result0)
+//@   ensures[tokens] result2 ==> Dropped(result1, nonTerminals, 3) && NTok(result0, len(result0)) == NTok(elems, len(elems))-3
+
+// PatNot: ... NOT E   (the rule fires on the last two elements)
+func PatNot(elems []any) bool {
+	return len(elems) >= 2 && TokIs(elems[len(elems)-2], lex.TNot) && IsE(elems[len(elems)-1])
+}
+
+//@ func not
+//@   props C05 C06 C10 C11 C01
+//@   fuel 2 NTok=3 ShapeP=3
+//@   requires ElemsOK(elems) && len(nonTerminals) >= 1+NTok(elems, len(elems))
+//@   ensures  result2 == PatNot(elems)
+//@   ensures  !result2 ==> verifspec.Same(result0, elems) && verifspec.Same(result1, nonTerminals)
+//@   ensures  result2 ==> len(result0) == len(elems)-1 && SamePrefix(result0, elems, len(elems)-2) &&
+//@            result0[len(elems)-2] == any(expr.NOT(wrapLiteral(E(elems[len(elems)-1]), defaultField)))
+//@   ensures[shape]  result2 ==> ElemOK(result0[len(elems)-2]) && ElemsOK(result0)
+//@   ensures[tokens] result2 ==> Dropped(result1, nonTerminals, 1) && NTok(result0, len(result0)) == NTok(elems, len(elems))-1
+//@   lemma prefix before "return elems, drop(nonTerminals, 1), true": lemmaNTokPrefix(elems, old(elems), len(old(elems))-2); lemmaNTokBounds(old(elems), len(old(elems))-2)
+
+// PatSub: ( E )
+func PatSub(elems []any) bool {
+	return len(elems) == 3 && TokIs(elems[0], lex.TLParen) && IsE(elems[1]) && TokIs(elems[2], lex.TRParen)
+}
+
+//@ func sub
+//@   props C05 C06 C09 C10 C01
+//@   fuel 2 NTok=5 ShapeP=2
+//@   requires ElemsOK(elems) && len(nonTerminals) >= 1+NTok(elems, len(elems))
+//@   ensures[pattern] result2 == PatSub(elems)
+//@   ensures  !result2 ==> verifspec.Same(result0, elems) && verifspec.Same(result1, nonTerminals)
+//@   ensures  result2 ==> len(result0) == 1 && result0[0] == elems[1]
+//@   ensures[shape]  result2 ==> ElemsOK(result0)
+//@   ensures[tokens] result2 ==> Dropped(result1, nonTerminals, 2) && NTok(result0, len(result0)) == NTok(elems, len(elems))-2
+
+// PatPrefix: + E   or   - E
+func PatPrefix(elems []any, t lex.TokType) bool {
+	return len(elems) == 2 && TokIs(elems[0], t) && IsE(elems[1])
+}
+
+//@ func must
+//@   props C05 C06 C10 C11 C01
+//@   fuel 2 NTok=4 ShapeP=3
+//@   requires ElemsOK(elems) && len(nonTerminals) >= 1+NTok(elems, len(elems))
+//@   ensures  result2 == PatPrefix(elems, lex.TPlus)
+//@   ensures  !result2 ==> verifspec.Same(result0, elems) && verifspec.Same(result1, nonTerminals)
+//@   ensures  result2 ==> len(result0) == 1 && result0[0] == any(expr.MUST(E(elems[1])))
+//@   ensures[shape]  result2 ==> ElemOK(result0[0]) && ElemsOK(result0)
+//@   ensures[tokens] result2 ==> Dropped(result1, nonTerminals, 1) && NTok(result0, len(result0)) == NTok(elems, len(elems))-1
+
+//@ func mustNot
+//@   props C05 C06 C10 C11 C01
+//@   fuel 2 NTok=4 ShapeP=3
+//@   requires ElemsOK(elems) && len(nonTerminals) >= 1+NTok(elems, len(elems))
+//@   ensures  result2 == PatPrefix(elems, lex.TMinus)
+//@   ensures  !result2 ==> verifspec.Same(result0, elems) && verifspec.Same(result1, nonTerminals)
+//@   ensures  result2 ==> len(result0) == 1 && result0[0] == any(expr.MUSTNOT(E(elems[1])))
+//@   ensures[shape]  result2 ==> ElemOK(result0[0]) && ElemsOK(result0)
+//@   ensures[tokens] result2 ==> Dropped(result1, nonTerminals, 1) && NTok(result0, len(result0)) == NTok(elems, len(elems))-1
+
+// PatSuffix2: E ~   or   E ^        PatSuffix3: E ~ E   or   E ^ E
+func PatSuffix2(elems []any, t lex.TokType) bool {
+	return len(elems) == 2 && IsE(elems[0]) && TokIs(elems[1], t)
+}
+func PatSuffix3(elems []any, t lex.TokType) bool {
+	return len(elems) == 3 && IsE(elems[0]) && TokIs(elems[1], t) && IsE(elems[2])
+}
+
+// The number operand of E~n / E^n is recognised through its printed form
+// (strconv on String()); the contract pins the structure and leaves the number
+// to the node itself.  (That the operand must be a number *term* is the part of
+// C06 the bounded derivation check covers.)
+
+//@ func fuzzy
+//@   props C05 C06 C10 C01
+//@   fuel 2 NTok=5 ShapeP=3
+//@   lemma printable before "idistance, err := strconv.Atoi": expr.LemmaParsedPrintable(distance)
+//@   requires ElemsOK(elems) && len(nonTerminals) >= 1+NTok(elems, len(elems))
+//@   ensures  result2 ==> PatSuffix2(elems, lex.TTilde) || PatSuffix3(elems, lex.TTilde)
+//@   ensures  PatSuffix2(elems, lex.TTilde) ==> result2 && len(result0) == 1 && result0[0] == any(expr.FUZZY(E(elems[0]), 1))
+//@   ensures  !result2 ==> verifspec.Same(result0, elems) && verifspec.Same(result1, nonTerminals)
+//@   ensures  result2 ==> len(result0) == 1 && IsE(result0[0]) && result0[0] == any(expr.FUZZY(E(elems[0]), expr.FuzzyDistanceOf(E(result0[0]))))
+//@   ensures[shape]  result2 ==> ElemOK(result0[0]) && ElemsOK(result0)
+//@   ensures[tokens] result2 ==> Dropped(result1, nonTerminals, 1) && NTok(result0, len(result0)) == NTok(elems, len(elems))-1
+
+//@ func boost
+//@   props C05 C06 C10 C01
+//@   fuel 2 NTok=5 ShapeP=3
+//@   lemma printable before "fpower, err := toPositiveFloat": expr.LemmaParsedPrintable(power)
+//@   requires ElemsOK(elems) && len(nonTerminals) >= 1+NTok(elems, len(elems))
+//@   ensures  result2 ==> PatSuffix2(elems, lex.TCarrot) || PatSuffix3(elems, lex.TCarrot)
+//@   ensures  PatSuffix2(elems, lex.TCarrot) ==> result2 && len(result0) == 1 && result0[0] == any(expr.BOOST(E(elems[0]), 1.0))
+//@   ensures  !result2 ==> verifspec.Same(result0, elems) && verifspec.Same(result1, nonTerminals)
+//@   ensures  result2 ==> len(result0) == 1 && IsE(result0[0]) && result0[0] == any(expr.BOOST(E(elems[0]), expr.BoostPowerOf(E(result0[0]))))
+//@   ensures[shape]  result2 ==> ElemOK(result0[0]) && ElemsOK(result0)
+//@   ensures[tokens] result2 ==> Dropped(result1, nonTerminals, 1) && NTok(result0, len(result0)) == NTok(elems, len(elems))-1
+
+// PatRange: E : [ E TO E ]   with [ or { and ] or }
+func PatRange(elems []any) bool {
+	return len(elems) == 7 && IsE(elems[0]) && TokIs(elems[1], lex.TColon) &&
+		(TokIs(elems[2], lex.TLSquare) || TokIs(elems[2], lex.TLCurly)) && IsE(elems[3]) && TokIs(elems[4], lex.TTO) && IsE(elems[5]) &&
+		(TokIs(elems[6], lex.TRSquare) || TokIs(elems[6], lex.TRCurly))
+}
+
+// RangeBuild: inclusive only for [ ... ].
+func RangeBuild(elems []any) *expr.Expression {
+	return expr.Rang(E(elems[0]), E(elems[3]), E(elems[5]), TokIs(elems[2], lex.TLSquare) && TokIs(elems[6], lex.TRSquare))
+}
+
+//@ func rangeop
+//@   props C05 C06 C10 C01
+//@   fuel 2 NTok=9 ShapeP=3
+//@   requires ElemsOK(elems) && len(nonTerminals) >= 1+NTok(elems, len(elems))
+//@   ensures  result2 == PatRange(elems)
+//@   ensures  !result2 ==> verifspec.Same(result0, elems) && verifspec.Same(result1, nonTerminals)
+//@   ensures  result2 ==> len(result0) == 1 && result0[0] == any(RangeBuild(elems))
+//@   ensures[shape]  result2 ==> ElemOK(result0[0]) && ElemsOK(result0)
+//@   ensures[tokens] result2 ==> Dropped(result1, nonTerminals, 4) && NTok(result0, len(result0)) == NTok(elems, len(elems))-4
+
+// ---- Reduce: the first rule of the table whose pattern matches ---------------------------------
+
+// Fires: patterns on which rule i of the table is certain to fire.
+func Fires(i int, elems []any) bool {
+	switch i {
+	case 0:
+		return PatBin(elems, lex.TAnd)
+	case 1:
+		return PatBin(elems, lex.TOr)
+	case 2:
+		return PatEqual(elems)
+	case 3:
+		return PatCompare(elems)
+	case 4:
+		return PatCompareEq(elems)
+	case 5:
+		return PatNot(elems)
+	case 6:
+		return PatSub(elems)
+	case 7:
+		return PatPrefix(elems, lex.TPlus)
+	case 8:
+		return PatPrefix(elems, lex.TMinus)
+	case 9:
+		return PatSuffix2(elems, lex.TTilde)
+	case 10:
+		return PatSuffix2(elems, lex.TCarrot)
+	case 11:
+		return PatRange(elems)
+	}
+	return false
+}
+
+// Built: what a successful reduction put on the stack, rule by rule.
+func Built(elems []any, df string, out []any) bool {
+	if len(out) == 0 {
+		return false
+	}
+	last := out[len(out)-1]
+	return (PatBin(elems, lex.TAnd) && len(out) == 1 && last == any(expr.AND(wrapLiteral(E(elems[0]), df), wrapLiteral(E(elems[2]), df)))) ||
+		(PatBin(elems, lex.TOr) && len(out) == 1 && last == any(expr.OR(wrapLiteral(E(elems[0]), df), wrapLiteral(E(elems[2]), df)))) ||
+		(PatEqual(elems) && len(out) == 1 && last == any(EqualBuild(E(elems[0]), E(elems[2])))) ||
+		(PatCompare(elems) && len(out) == 1 && last == any(CompareBuild(elems))) ||
+		(PatCompareEq(elems) && len(out) == 1 && last == any(CompareEqBuild(elems))) ||
+		(PatNot(elems) && len(out) == len(elems)-1 && SamePrefix(out, elems, len(elems)-2) && last == any(expr.NOT(wrapLiteral(E(elems[len(elems)-1]), df)))) ||
+		(PatSub(elems) && len(out) == 1 && last == elems[1]) ||
+		(PatPrefix(elems, lex.TPlus) && len(out) == 1 && last == any(expr.MUST(E(elems[1])))) ||
+		(PatPrefix(elems, lex.TMinus) && len(out) == 1 && last == any(expr.MUSTNOT(E(elems[1])))) ||
+		((PatSuffix2(elems, lex.TTilde) || PatSuffix3(elems, lex.TTilde)) && len(out) == 1 && IsE(last) && last == any(expr.FUZZY(E(elems[0]), expr.FuzzyDistanceOf(E(last))))) ||
+		((PatSuffix2(elems, lex.TCarrot) || PatSuffix3(elems, lex.TCarrot)) && len(out) == 1 && IsE(last) && last == any(expr.BOOST(E(elems[0]), expr.BoostPowerOf(E(last))))) ||
+		(PatRange(elems) && len(out) == 1 && last == any(RangeBuild(elems)))
+}
+
+// NoneBefore: none of the first n rules is certain to fire on elems.
+func NoneBefore(n int, elems []any) bool {
+	return (n <= 0 || !PatBin(elems, lex.TAnd)) && (n <= 1 || !PatBin(elems, lex.TOr)) && (n <= 2 || !PatEqual(elems)) &&
+		(n <= 3 || !PatCompare(elems)) && (n <= 4 || !PatCompareEq(elems)) && (n <= 5 || !PatNot(elems)) && (n <= 6 || !PatSub(elems)) &&
+		(n <= 7 || !PatPrefix(elems, lex.TPlus)) && (n <= 8 || !PatPrefix(elems, lex.TMinus)) && (n <= 9 || !PatSuffix2(elems, lex.TTilde)) &&
+		(n <= 10 || !PatSuffix2(elems, lex.TCarrot)) && (n <= 11 || !PatRange(elems))
+}
+
+// PrefixOf: r is an initial segment of nt.
+func PrefixOf(r, nt []lex.Token) bool {
+	return len(r) <= len(nt) && verifspec.Forall(0, len(r), func(i int) bool { return r[i] == nt[i] })
+}
+
+//@ func Reduce
+//@   props C05 C06 C10 C11 C01
+//@   fuel 2 NTok=2
+//@   requires ElemsOK(elems) && len(nonTerminals) >= 1+NTok(elems, len(elems))
+//@   ensures  !result2 ==> verifspec.Same(result0, elems) && verifspec.Same(result1, nonTerminals)
+//@   ensures[no-rule-left-out] !result2 ==> NoneBefore(12, elems)
+//@   ensures[built]  result2 ==> Built(elems, defaultField, result0)
+//@   ensures[shape]  result2 ==> ElemsOK(result0) && 1 <= len(result0) && len(result0) < len(elems)
+//@   ensures[tokens] result2 ==> PrefixOf(result1, nonTerminals) && len(result1)-NTok(result0, len(result0)) == len(nonTerminals)-NTok(elems, len(elems))
+//@   loop 0: rangeinv NoneBefore(idx, elems)
